@@ -60,7 +60,7 @@ FLOORS = {
                               "layer_cull_twice_checked": 140000, "task_deps_compared": 1300000, "fused_values_checked": 64000,
                               "layers_absorbed": 42000, "ann_fused_groups_with_differing_annotations": 5400,
                               "fuse_roots_merged_layers": 6000, "fuse_roots_ann_groups_with_annotations": 350},
-                 "sets": {"annotation_combinations": 2500, "layer_features": 20}, "max_skipped_fraction": 0.05},
+                 "sets": {"annotation_combinations": 4200, "layer_features": 25}, "max_skipped_fraction": 0.05},
 }
 EXHAUSTIVE_SPACE = ("every subset of output blocks for outputs with <= 6 blocks; all ordered pairs and triples of lattice "
                     "values per annotation key (priority, retries, resources, workers, allow_other_workers) on a fixed chain")
